@@ -540,9 +540,13 @@ class VariantIntervalCollection(AbstractFeatureIntervalCollection):
         # lift over sequenceless to avoid overhead
         if isinstance(location, SingleInterval):
             for variant in self.variant_intervals:
+                if location is EmptyLocation():
+                    break
                 location = variant._lift_over_chromosome_location_single_interval(location)
         elif isinstance(location, CompoundInterval):
             for variant in self.variant_intervals:
+                if location is EmptyLocation():
+                    break
                 location = variant._lift_over_chromosome_location_compound_interval(location)
         else:
             raise ValueError("Invalid Location type passed")
